@@ -12,6 +12,7 @@ Inductive stepk :=
 | SDump (t : tgt)          (* json.dump(data, f): write the whole new content *)
 | SClose (t : tgt)         (* f.close(): flush *)
 | SMove (a b : tgt)        (* os.rename(a, b) / a.moveTo(b) *)
+| SMoveRetryAfterUnlink (a b : tgt)  (* try: rename(a, b)  except OSError: (try: remove(b) except OSError: pass); rename(a, b) *)
 | SMoveElseUnlink (a b c : tgt)  (* try: a.moveTo(b)  except: (try: os.unlink(c) except OSError: pass); raise *)
 | SChmod (t : tgt)
 | SUnlink (t : tgt)
